@@ -36,6 +36,16 @@ def zero_exit(target, ordinal):
   ZERO_EXIT.add((target, ordinal))
 
 
+def assume_at_head(target, ordinal, over, text):
+  """ghost hypothesis of the property (not proved; listed as an assumption): assumed at the loop head and on entry"""
+  def deco(fn):
+    e = INVARIANTS.setdefault((target, ordinal), dict(over=over, inv=None))
+    e['assume'] = fn
+    e['assume_text'] = text
+    return fn
+  return deco
+
+
 def at_break(target, ordinal, over):
   """assertion that must hold whenever the loop is left through `break` (proved on every break path)"""
   def deco(fn):
@@ -399,6 +409,12 @@ def one_loop(ex, st, p, it, module, is_for, inv, target, ordinal, optional=froze
   selfv = p.env.get('self')
   tag = '%s/loop%s@L%d' % (target, ordinal, st.lineno)
   # ---- invariant at entry
+  ghost = inv.get('assume') if inv is not None else None
+  if ghost is not None:
+    p.assume(ghost(view(ex, p)))
+    note = 'ghost hypothesis at loop line %d: %s' % (st.lineno, inv.get('assume_text', ''))
+    if note not in p.notes:
+      p.notes.append(note)
   brk = inv.get('at_break') if inv is not None else None
   if inv is not None and inv.get('inv') is None:
     inv = None
@@ -427,6 +443,8 @@ def one_loop(ex, st, p, it, module, is_for, inv, target, ordinal, optional=froze
         head.store[loc] = s_.replace(term=fresh('hv', T), version=s_.version + 1)
     if inv is not None:
       head.assume(inv['inv'](view(ex, head), None))
+    if ghost is not None:
+      head.assume(ghost(view(ex, head)))
     versions = {loc: s_.version for loc, s_ in head.store.items()}
     head_env = dict(head.env)
     head_attrs = dict(head.heap[selfv.oid]) if isinstance(selfv, VObj) else {}
